@@ -96,6 +96,18 @@ CLAIMED["C07"] = dict(
     technique="runtime monitoring: invariant counters on allocation and stack hooks, child-process crash monitor, logical step counter via the VM debug hook",
 )
 
+CLAIMED["C08"] = dict(
+    category="exploration",
+    text="Harness ASTs printed in all 32 combinations of five concrete-style switches are parsed by the real parser and "
+         "compared structurally; spans are checked for containment, nesting and self-consistency (the text of a span "
+         "re-parses to that subtree); ALL operator chains up to the bound over a six-operator fixity table are evaluated "
+         "through the real pipeline and compared with a shunting-yard reference including conflict errors "
+         "(exhaustive sub-run), built-in chains by value.",
+    design_ref="DESIGN.md §4 C08",
+    note="The printer's layout discipline is the trusted statement of the documented offside rule; tabs excluded.",
+    technique="runtime monitoring: print/parse round-trip oracle with span-consistency monitor; exhaustive operator-chain enumeration against a reference grouping algorithm",
+)
+
 NOT_YET = "check not built yet in this session (work in progress; see DESIGN.md for the planned monitor)"
 
 def main():
